@@ -6,7 +6,7 @@ from vlib import coq_list, coq_bool
 
 MANIFEST = {
     "text": "Coq theorems over a row-level model of the AT executors (update/delete/insert): C18_exact, C18_exact_delete, "
-            "C18_exact_insert (for ALL tables, matched key lists, SET functions, tracked column sets: before image = matched rows "
+            "C18_exact_insert, C18_exact_upsert / C18_upsert_pk_reject (INSERT .. ON DUPLICATE KEY UPDATE) (for ALL tables, matched key lists, SET functions, tracked column sets: before image = matched rows "
             "as of before, after image = the same keys as of after, unmatched rows unchanged and absent), C18_pk_reject (a key-changing "
             "UPDATE is refused, by a row-by-row unique-check argument), C18_insert_pk / C18_insert_arg_index (recovered keys = inserted "
             "keys; the argument index arithmetic of multi-row VALUES), C18_args (structural induction over syntax trees: selected "
@@ -39,7 +39,7 @@ ERR = {1: "accepted/rejected differs from the model", 2: "before image differs f
 
 def tracked(meta, sm):
     n = len(meta["cols"])
-    if sm["kind"] == "delete":
+    if sm["kind"] in ("delete", "upsert"):
         return list(range(n))
     if meta["only_care"] and sm["cols"]:
         return [i for i in range(n) if i in sm["cols"] or i in meta["pk"]]
@@ -144,6 +144,13 @@ def analyze_stmt(case, sm):
             obs_a = check(aimg, matched, k1, "after")
             if set(k0) != set(k1):
                 res["oracle"].append("an accepted UPDATE changed the set of primary keys")
+        elif sm["kind"] == "upsert":
+            newk = [k for k in k1 if k not in k0]
+            obs_b = check(bimg, matched, k0, "before")
+            obs_a = check(aimg, list(matched) + newk, k1, "after")
+            if any(k not in k1 for k in k0):
+                res["oracle"].append("an accepted INSERT .. ON DUPLICATE KEY UPDATE changed or removed a primary key")
+            matched_all = list(matched) + newk
         elif sm["kind"] == "delete":
             obs_b = check(bimg, matched, k0, "before")
             if aimg:
@@ -153,10 +160,10 @@ def analyze_stmt(case, sm):
                 res["oracle"].append("before image of an INSERT is not empty")
             obs_a = check(aimg, matched, k1, "after")
         for k in changed:
-            if k not in matched:
+            if k not in (matched_all if sm["kind"] == "upsert" else matched):
                 res["oracle"].append("row %s changed but was not matched by the statement" % str(k))
     # ---- model case
-    kindn = {"update": 0, "delete": 1, "insert": 2}[sm["kind"]]
+    kindn = {"update": 0, "delete": 1, "insert": 2, "upsert": 3}[sm["kind"]]
     sets = []
     for s in sm.get("sets") or []:
         v = U.canon_arg(s["v"])
@@ -164,7 +171,7 @@ def analyze_stmt(case, sm):
     listed = "None"
     if sm["kind"] == "insert" and sm.get("listed") is not None:
         listed = "(Some %s)" % coq_list([U.coq_vals([U.canon_arg(a) for a in key]) for key in sm["listed"]])
-    krs = [(list(k), k1[k]) for k in k1 if k not in k0] if sm["kind"] == "insert" else []
+    krs = [(list(k), k1[k]) for k in k1 if k not in k0] if sm["kind"] in ("insert", "upsert") else []
     if sm["kind"] == "insert" and not ok:
         krs = None   # what the database would have stored is not observable for a rejected insert
     if matched is not None and krs is not None and sm.get("expect") != "reject-db":
@@ -176,7 +183,7 @@ def analyze_stmt(case, sm):
             listed, st.get("last_id", 0), coq_bool(ok), U.coq_tbl(obs_b), U.coq_tbl(obs_a),
             U.coq_tbl([(list(k), r) for k, r in U.keyed(d1, pk)]))
     # ---- argument selection: the first locking SELECT the proxy issued for this statement
-    if sm["kind"] in ("update", "delete") and sm.get("roots") is not None:
+    if sm["kind"] in ("update", "delete") and sm.get("roots"):
         obs = None
         for e in U.db_events(tr, st["seq_from"], st["seq_to"]):
             if e["src"] == "db" and e["db"]["kind"] in ("QUERY", "STMT_QUERY") and "FOR UPDATE" in e["db"].get("sql", "").upper():
@@ -267,7 +274,8 @@ def run(chk, only=None):
         "evaluations": len(irecs) + len(arecs),
         "distinct_nontrivial": vlib.distinct([r["icase"] for _, _, r in nontriv if r["icase"]]),
         "rule": "%d scenarios (clean + malformed + finding streams) of 1-4 autocommit DML statements inside a global transaction over 4 schemas "
-                "(auto-increment, string key, composite key, plain integer key), both settings of only-care-update-columns; "
+                "(auto-increment, string key, composite key, plain integer key, composite key declared out of column order, auto-increment key ID + secondary "
+                "unique index for upserts; mixed-case column names), both settings of only-care-update-columns; "
                 "WHERE from comparison/AND/OR/NOT/IN/BETWEEN/IS NULL/LIKE/parentheses/unary minus, ORDER BY + LIMIT, parameters or literals "
                 "anywhere; multi-row VALUES mixing literals, parameters, NULL, DEFAULT; key-changing updates, duplicate keys, unknown columns, "
                 "surplus arguments in the malformed stream; non-trivial = at least one row matched/inserted; distinct by the model case term"
